@@ -5,6 +5,7 @@ pub mod c11;
 pub mod c12;
 pub mod c13;
 pub mod c14;
+pub mod c18;
 pub mod lattice;
 pub mod paths;
 pub mod plan;
@@ -20,6 +21,7 @@ pub fn run(prop: &str, tier: Tier, seed: u64) -> i32 {
         "C15" => steps::run(steps::StepProp::C15, tier, seed),
         "C16" => steps::run(steps::StepProp::C16, tier, seed),
         "C17" => steps::run(steps::StepProp::C17, tier, seed),
+        "C18" => c18::run(tier, seed),
         "C09" => c09::run(tier, seed),
         "C10" => c10::run(tier, seed),
         "C11" => c11::run(tier, seed),
@@ -57,6 +59,7 @@ pub fn replay(file: &str) -> i32 {
         ("C03", "scenario") => paths::replay(paths::PathProp::C03, rp, file),
         ("C04", "scenario") => paths::replay(paths::PathProp::C04, rp, file),
         ("C05", "scenario") => paths::replay(paths::PathProp::C05, rp, file),
+        ("C18", "prm") => c18::replay(rp, file),
         ("C15", "steps") => steps::replay(steps::StepProp::C15, rp, file),
         ("C16", "steps") => steps::replay(steps::StepProp::C16, rp, file),
         ("C17", "steps") => steps::replay(steps::StepProp::C17, rp, file),
